@@ -37,7 +37,11 @@ func (s *scene) perLine() (n [176 + 8]int) {
 func mutate(r *rig.Rng, s *scene, c *rig.Ctx) (ws []store) {
 	set := func(a uint16, v uint8) { ws = append(ws, store{a, v}) }
 	for k := 1 + r.Intn(3); k > 0; k-- {
-		switch r.Intn(9) {
+		switch r.Intn(10) {
+		case 9: // the LCD is switched off and on again (nothing else need be rewritten)
+			set(0xff40, s.lcdc&0x7f)
+			set(0xff40, s.lcdc)
+			c.Count("sequence_lcd_off_on", 1)
 		case 0: // park objects, those reaching the last or first lines first
 			for i := 0; i < s.nobj; i++ {
 				y := s.oam[i*4]
@@ -145,7 +149,7 @@ func compareFrame(c *rig.Ctx, m *rig.Machine, s *scene, label string) bool {
 }
 
 func sequences(c *rig.Ctx) {
-	c.Require("sequence_frames_compared", "sequence_objects_parked", "sequence_window_brought_back_by_wy")
+	c.Require("sequence_frames_compared", "sequence_objects_parked", "sequence_window_brought_back_by_wy", "sequence_lcd_off_on", "sequence_first_frames_after_switch_on")
 	ns := c.N(240, 3000)
 	c.Part("sequences", ns, func(i int64, r *rig.Rng) {
 		s := genScene(r)
@@ -180,22 +184,39 @@ func sequences(c *rig.Ctx) {
 		c.Count("sequence_frames_compared", 1)
 		steps := 3 + r.Intn(4)
 		for st := 1; st <= steps; st++ {
+			rig.SiblingRun(40)                                         // another machine in the process rewrites its own palettes, scroll, window
 			tick(144*lcdref.LineLen + 1 + r.Intn(10*lcdref.LineLen-8)) // somewhere in the vertical blank
 			if mode := m.Mem.Read(0xff41) & 3; mode != 1 {
 				c.Note("sequence harness: expected the vertical blank, STAT mode is %d", mode)
 				return
 			}
 			ws := mutate(r, s, c)
-			pos := 0
-			for _, w := range ws {
+			restarted := -1
+			for k, w := range ws {
 				m.Mem.Write(w.a, w.v)
-				pos++
+				if w.a == 0xff40 && w.v&0x80 != 0 && k > 0 && ws[k-1].a == 0xff40 && ws[k-1].v&0x80 == 0 {
+					restarted = k
+				}
 			}
-			// finish this frame, run the next one completely
-			for m.Mem.Read(0xff44) != 0 {
-				tick(1)
+			if restarted >= 0 && restarted == len(ws)-1 {
+				// switched on by the last store: the very first frame after switch-on (two cycles
+				// shorter) must already be the composition
+				tick(lcdref.FrameLen - 2)
+				c.Count("sequence_first_frames_after_switch_on", 1)
+			} else {
+				if restarted >= 0 {
+					// stores followed the switch-on: they fell into line 0; start over in v-blank
+					tick(144*lcdref.LineLen + 200)
+					for _, w := range ws[restarted+1:] {
+						m.Mem.Write(w.a, w.v)
+					}
+				}
+				// finish this frame, run the next one completely
+				for m.Mem.Read(0xff44) != 0 {
+					tick(1)
+				}
+				tick(lcdref.FrameLen)
 			}
-			tick(lcdref.FrameLen)
 			if !compareFrame(c, m, s, fmt.Sprintf("sequence %d, scene %d (after %d stores in the vertical blank):", i, st+1, len(ws))) {
 				return
 			}
